@@ -27,3 +27,4 @@ def check(ctx):
                             M + "krylov_energy_minimization_impl": {M + "krylov_energy_minimization"}})
     conv.clients_use_raising_entry(ctx, M + "krylov_energy_minimization", 1)
     ctx.floor("CONV-honest", 2)
+    conv.no_flag_rewrite(ctx, ("emu_base.math.krylov_energy_min", "emu_mps.solver_utils"), {"converged", "happy_breakdown"})
